@@ -702,12 +702,12 @@ class ProductState:
                     "The state is entirely composed of zeros,"
                     "is |0⟩ attempted to be annihilated?"
                 )
-            if operation.renormalize:
-                ps = ps / jnp.linalg.norm(ps)
-
             # Reshape back into 2d Matrix
             dims = jnp.prod(jnp.array([so.dimensions for so in self.state_objs]))
-            self.state = ps.reshape((dims, dims))
+            ps = ps.reshape((dims, dims))
+            if operation.renormalize:
+                ps = ps / jnp.trace(ps)
+            self.state = ps
             C = Config()
             if C.contractions:
                 self.contract()
